@@ -3041,6 +3041,15 @@ fn generate_constraints_expr(
                             // fully qualified struct/enum method
                             // example: Person.fullname(my_person)
                             //          ^^^^^
+                            // the receiver is the first argument; names and defaults apply to the rest
+                            if let Some((receiver_arg, rest)) = args.split_first()
+                                && receiver_arg.name.is_none()
+                            {
+                                calculate_func_call_order(ctx, fname.node(), rest, expr.node());
+                                if let Some(order) = ctx.function_call_arg_order.get_mut(&expr.id) {
+                                    order.insert(0, receiver_arg.val.clone());
+                                }
+                            }
                             helper(ctx, func.name.node(), None);
                         }
                         Some(Declaration::FreeFunction(FuncResolutionKind::Ordinary(func))) => {
